@@ -284,7 +284,7 @@ def make_dir(rng, ctx, root, same_stem=False, carry=False, probe=None, full=Fals
     files = []
     nvalid = 6 if full else rng.randint(2, 5)
     nbad = rng.randint(1, 4)
-    stems = ['%c%02d' % (rng.choice('abmz'), i) for i in range(nvalid + nbad)]
+    stems = ['%c%02d' % (rng.choice('abmz'), i) for i in range(nvalid + nbad + 1)]
     rng.shuffle(stems)
     sub = rng.random() < 0.4
     if sub:
@@ -300,10 +300,18 @@ def make_dir(rng, ctx, root, same_stem=False, carry=False, probe=None, full=Fals
             rel = os.path.join('sub', rel)
         k += 1
         files.append((rel, 'valid-' + fmt, data))
-    for i in range(nbad):
-        kind = rng.choice(['empty', 'truncate', 'truncate', 'flip', 'flip', 'header', 'text', 'random', 'zeros', 'foreign', 'foreign', 'foreign'])
+    for i in range(nbad + (1 if full else 0)):
+        kind = rng.choice(['empty', 'truncate', 'truncate', 'flip', 'flip', 'header', 'text', 'random', 'zeros', 'foreign', 'foreign', 'foreign', 'origin-quirk'])
+        if full and i == nbad:
+            kind = 'origin-quirk'
         fmt, base = rng.choice(valid_data)
-        data = damage(rng, base, kind)
+        if kind == 'origin-quirk':
+            # a conformant RP66V1 file whose ORIGIN lacks something the converter reads (an Absent Attribute, or the label is
+            # not in the template): the converter may fail on it or convert it, but must do the same in every mode
+            lab = rng.choice([b'CREATION-TIME', b'CREATION-TIME', b'WELL-NAME', b'FIELD-NAME', b'COMPANY', b'PRODUCER-NAME'])
+            fmt, data = 'RP66V1', c11.build_dlis(rng, origin_kw={rng.choice(['absent', 'absent', 'omit']): (lab,)})[0]
+        else:
+            data = damage(rng, base, kind)
         rel = stems[k] + rng.choice(EXT[fmt] + ['.txt', ''])
         if sub and rng.random() < 0.3:
             rel = os.path.join('sub', rel)
